@@ -10,7 +10,8 @@ ID = "C08"
 LEVEL = "model_checking"
 RULE = ("exhaustive exploration of command histories of depth <=3 (quick) / <=4 (thorough) from the empty project over the alphabet "
         "{run ok, run with e1 failing, run with e2 failing, run interrupted by SIGINT while e2 runs, restore of an archive whose ids are "
-        "older than the clock, restore of an archive whose ids are in the future, gc} x wall-clock step per command {+0 s, +1 s, -5 s}; "
+        "older than the clock, restore of an archive whose ids are in the future, gc} x wall-clock step per command {+0 s, +1 s, -5 s}, plus "
+        "the user editing a file in every recorded version directory; "
         "each command is the real command executed in-process on the directory state left by its predecessors (runs under the virtual "
         "kernel). states = distinct canonical project states (rows + Merkle digest of cond-out); transitions = commands executed. "
         "invariants: at every experiment spawn the version id exceeds every id recorded in the project and every id handed out "
@@ -56,7 +57,7 @@ def make_archives():
 
 
 def items(tier):
-    letters = [(c, s) for c in CMDS for s in STEPS]
+    letters = [(c, s) for c in CMDS for s in STEPS] + [("edit", 0)]
     out = []
     for a in letters:
         for b in letters:
@@ -188,6 +189,12 @@ def do_command(root, cmd, clock_t, archives, check):
         os.unlink(arch)
     elif cmd == "gc":
         res = hist.run(root, ["gc"], clock=ck)
+    elif cmd == "edit":
+        # the user annotates the results of every recorded version (the one step that may change those directories)
+        for d in recorded:
+            with open(os.path.join(root, "cond-out", d, "result"), "a") as f:
+                f.write("# checked by hand\n")
+        return None
     tree_after = hist.data_tree(root)
     for d, sub in recorded.items():
         if hist.subtree(tree_after, d) != sub or tree_after.get(d) != ("d",):
@@ -200,7 +207,7 @@ def run_item(item, tier):
     res = {"evals": 0, "sigs": set(), "states": set(), "transitions": 0, "violations": [], "counters": {}, "sample": None}
     found = {}
     archives = make_archives()
-    letters = [(c, s) for c in CMDS for s in STEPS]
+    letters = [(c, s) for c in CMDS for s in STEPS] + [("edit", 0)]
     root = driver.fresh_project({"COND": CONDS[item.get("cond", "std")], "p/q/COND": COND_PQ}, name="c08")
     os.makedirs(os.path.join(root, "cond-out"), exist_ok=True)
 
